@@ -483,3 +483,213 @@ Example restore_voters_joint_somewhere :
   | inr _ => false
   end = true.
 Proof. vm_compute. reflexivity. Qed.
+
+Lemma alookup_ainsert {A} (m : list (N * A)) k v k' :
+  alookup (ainsert m k v) k' = if N.eqb k' k then Some v else alookup m k'.
+Proof.
+  induction m as [|[a b] m IH]; cbn.
+  - destruct (N.eqb k' k); reflexivity.
+  - destruct (N.eqb_spec k a) as [->|NE]; cbn.
+    + destruct (N.eqb k' a); reflexivity.
+    + destruct (N.ltb k a); cbn.
+      * destruct (N.eqb_spec k' k); reflexivity.
+      * rewrite IH. destruct (N.eqb_spec k' a) as [->|]; [|reflexivity].
+        destruct (N.eqb_spec a k); [congruence|reflexivity].
+Qed.
+
+Lemma alookup_aremove {A} (m : list (N * A)) k k' :
+  alookup (aremove m k) k' = if N.eqb k' k then None else alookup m k'.
+Proof.
+  induction m as [|[a b] m IH]; cbn.
+  - destruct (N.eqb k' k); reflexivity.
+  - destruct (N.eqb_spec k a) as [->|NE]; cbn.
+    + rewrite IH. destruct (N.eqb_spec k' a); reflexivity.
+    + rewrite IH. destruct (N.eqb_spec k' a) as [->|]; [|reflexivity].
+      destruct (N.eqb_spec a k); [congruence|reflexivity].
+Qed.
+
+(* the learner marks of the progress map and the learner set agree; learners are not
+   outgoing voters; outgoing voters keep their progress *)
+Definition linv (c : config) (p : progress_map) : Prop :=
+  (forall id pr, alookup p id = Some pr -> pr_is_learner pr = true -> In id (c_learners c)) /\
+  (forall id, In id (c_learners c) -> exists pr, alookup p id = Some pr /\ pr_is_learner pr = true) /\
+  (forall id, In id (c_learners c) -> smem (c_outgoing c) id = false) /\
+  (forall id, smem (c_outgoing c) id = true -> amem p id = true).
+
+Ltac lk := repeat (rewrite alookup_ainsert in * || rewrite alookup_aremove in *).
+
+Lemma make_voter_linv mi mb li c p id c' p' :
+  linv c p -> make_voter mi mb li c p id = (c', p') ->
+  linv c' p' /\ c_outgoing c' = c_outgoing c /\ (forall x, In x (c_learners c') -> In x (c_learners c)) /\
+  (forall x, x <> id -> In x (c_learners c) -> In x (c_learners c')).
+Proof.
+  intros (A & B & C & D) H. unfold make_voter, init_progress in H.
+  destruct (alookup p id) as [pr|] eqn:E; inversion H; subst; clear H; unfold linv; cbn.
+  - split; [|split; [reflexivity|split; intros x; rewrite ?sremove_In; tauto]].
+    split; [|split; [|split]].
+    + intros i q L F. rewrite sremove_In. lk. destruct (N.eqb_spec i id); [inversion L; subst; cbn in F; discriminate|].
+      split; [eapply A; eauto|assumption].
+    + intros i I. apply sremove_In in I. destruct I as [I NE]. lk. destruct (N.eqb_spec i id); [congruence|]. apply B; exact I.
+    + intros i I. apply sremove_In in I. apply C. tauto.
+    + intros i S. unfold amem. lk. destruct (N.eqb i id); [reflexivity|]. apply D. exact S.
+  - split; [|split; [reflexivity|split; intros x; tauto]].
+    split; [|split; [|split]].
+    + intros i q L F. lk. destruct (N.eqb_spec i id); [inversion L; subst; cbn in F; discriminate|]. eapply A; eauto.
+    + intros i I. lk. destruct (N.eqb_spec i id) as [->|]; [|apply B; exact I].
+      destruct (B _ I) as (q & Q & _). congruence.
+    + exact C.
+    + intros i S. unfold amem. lk. destruct (N.eqb i id); [reflexivity|]. apply D. exact S.
+Qed.
+
+Lemma cc_remove_linv c p id c' p' :
+  linv c p -> cc_remove c p id = (c', p') ->
+  linv c' p' /\ c_outgoing c' = c_outgoing c /\ (forall x, In x (c_learners c') -> In x (c_learners c)) /\
+  (forall x, x <> id -> In x (c_learners c) -> In x (c_learners c')).
+Proof.
+  intros (A & B & C & D) H. unfold cc_remove in H.
+  destruct (negb (has_progress p id)).
+  { inversion H; subst. unfold linv. tauto. }
+  destruct (smem (c_outgoing c) id) eqn:SM; inversion H; subst; clear H; unfold linv; cbn.
+  - split; [|split; [reflexivity|split; intros x; rewrite ?sremove_In; tauto]].
+    split; [|split; [|split]].
+    + intros i q L F. rewrite sremove_In. split; [eapply A; eauto|].
+      intros ->. specialize (A _ _ L F). apply C in A. congruence.
+    + intros i I. apply sremove_In in I. apply B. tauto.
+    + intros i I. apply sremove_In in I. apply C. tauto.
+    + exact D.
+  - split; [|split; [reflexivity|split; intros x; rewrite ?sremove_In; tauto]].
+    split; [|split; [|split]].
+    + intros i q L F. lk. rewrite sremove_In. destruct (N.eqb_spec i id); [discriminate|]. split; [eapply A; eauto|assumption].
+    + intros i I. apply sremove_In in I. destruct I as [I NE]. lk. destruct (N.eqb_spec i id); [congruence|]. apply B; exact I.
+    + intros i I. apply sremove_In in I. apply C. tauto.
+    + intros i S. unfold amem. lk. destruct (N.eqb_spec i id) as [->|]; [congruence|]. apply D. exact S.
+Qed.
+
+Lemma make_learner_linv mi mb li c p id c' p' :
+  linv c p -> make_learner mi mb li c p id = (c', p') ->
+  linv c' p' /\ c_outgoing c' = c_outgoing c /\
+  (forall x, In x (c_learners c') -> x = id \/ In x (c_learners c)) /\
+  (forall x, x <> id -> In x (c_learners c) -> In x (c_learners c')) /\
+  (smem (c_outgoing c) id = false -> In id (c_learners c')).
+Proof.
+  intros (A & B & C & D) H. unfold make_learner, init_progress in H.
+  destruct (alookup p id) as [pr|] eqn:E.
+  2:{ inversion H; subst; clear H; unfold linv; cbn.
+      split; [|split; [reflexivity|repeat split; intros; rewrite ?sinsert_In in *; tauto]].
+      split; [|split; [|split]].
+      - intros i q L F. lk. rewrite sinsert_In. destruct (N.eqb_spec i id); [tauto|]. right. eapply A; eauto.
+      - intros i I. lk. destruct (N.eqb_spec i id); [eexists; split; [reflexivity|reflexivity]|].
+        apply sinsert_In in I. destruct I as [I|I]; [congruence|]. apply B; exact I.
+      - intros i I. apply sinsert_In in I. destruct I as [->|I]; [|apply C; exact I].
+        destruct (smem (c_outgoing c) id) eqn:SM; [|reflexivity]. apply D in SM. unfold amem in SM. rewrite E in SM. discriminate.
+      - intros i S. unfold amem. lk. destruct (N.eqb i id); [reflexivity|]. apply D. exact S. }
+  destruct (pr_is_learner pr) eqn:PL.
+  { inversion H; subst. unfold linv. repeat split; try tauto. intros _. eapply A; eauto. }
+  unfold cc_remove in H. assert (HP : has_progress p id = true) by (unfold has_progress, amem; rewrite E; reflexivity).
+  rewrite HP in H. cbn [negb] in H.
+  destruct (smem (c_outgoing c) id) eqn:SM; cbn in H; rewrite SM in H; inversion H; subst; clear H; unfold linv; cbn.
+  - split; [|split; [reflexivity|repeat split; intros; rewrite ?sremove_In in *; try tauto; discriminate]].
+    split; [|split; [|split]].
+    + intros i q L F. lk. rewrite sremove_In. destruct (N.eqb_spec i id); [inversion L; subst; congruence|]. split; [eapply A; eauto|assumption].
+    + intros i I. apply sremove_In in I. destruct I as [I NE]. lk. destruct (N.eqb_spec i id); [congruence|]. apply B; exact I.
+    + intros i I. apply sremove_In in I. apply C. tauto.
+    + intros i S. unfold amem. lk. destruct (N.eqb i id); [reflexivity|]. apply D. exact S.
+  - split; [|split; [reflexivity|repeat split; intros; rewrite ?sinsert_In, ?sremove_In in *; tauto]].
+    split; [|split; [|split]].
+    + intros i q L F. lk. rewrite sinsert_In, sremove_In. destruct (N.eqb_spec i id); [tauto|]. right. split; [eapply A; eauto|assumption].
+    + intros i I. lk. destruct (N.eqb_spec i id); [eexists; split; reflexivity|].
+      apply sinsert_In in I. destruct I as [I|I]; [congruence|]. apply sremove_In in I. apply B. tauto.
+    + intros i I. apply sinsert_In in I. destruct I as [->|I]; [exact SM|]. apply sremove_In in I. apply C. tauto.
+    + intros i S. unfold amem. lk. destruct (N.eqb_spec i id) as [->|]; [reflexivity|]. apply D. exact S.
+Qed.
+
+Lemma simple_add_linv t li id c p :
+  linv (t_config t) (t_progress t) ->
+  changer_simple t li [mkCCS CCAddNode id] = inl (c, p) ->
+  linv c p /\ (forall x, In x (c_learners c) -> In x (c_learners (t_config t))).
+Proof.
+  unfold changer_simple. intros LI H.
+  destruct (check_and_return (cfg_clone (t_config t)) (t_progress t)) as [[c0 p0]|] eqn:E0; [|discriminate].
+  apply check_and_return_ok in E0. destruct E0 as (-> & -> & I0).
+  destruct (joint _) eqn:J; [discriminate|].
+  destruct (cc_apply _ _ _ _ _ _) as [[c2 p2]|] eqn:EA; [|discriminate].
+  destruct (1 <? symdiff _ _) eqn:SD; [discriminate|].
+  apply check_and_return_ok in H. destruct H as (-> & -> & I2).
+  cbn [cc_apply ccs_node ccs_type] in EA.
+  destruct (N.eqb id 0).
+  - destruct (N.eqb _ 0); [discriminate|]. inversion EA; subst. split; [exact LI|cbn; tauto].
+  - destruct (make_voter _ _ _ _ _ _) as [c1 p1] eqn:MV.
+    destruct (N.eqb _ 0); [discriminate|]. inversion EA; subst.
+    eapply make_voter_linv in MV; [|exact LI]. cbn in MV. tauto.
+Qed.
+
+Lemma simple_learner_linv t li id c p :
+  linv (t_config t) (t_progress t) ->
+  changer_simple t li [mkCCS CCAddLearnerNode id] = inl (c, p) ->
+  linv c p /\ (forall x, In x (c_learners c) <-> (x = id /\ id <> 0) \/ In x (c_learners (t_config t))).
+Proof.
+  unfold changer_simple. intros LI H.
+  destruct (check_and_return (cfg_clone (t_config t)) (t_progress t)) as [[c0 p0]|] eqn:E0; [|discriminate].
+  apply check_and_return_ok in E0. destruct E0 as (-> & -> & I0).
+  destruct (joint _) eqn:J; [discriminate|].
+  destruct (cc_apply _ _ _ _ _ _) as [[c2 p2]|] eqn:EA; [|discriminate].
+  destruct (1 <? symdiff _ _) eqn:SD; [discriminate|].
+  apply check_and_return_ok in H. destruct H as (-> & -> & I2).
+  cbn [cc_apply ccs_node ccs_type] in EA.
+  destruct (N.eqb_spec id 0) as [Z|NZ].
+  - destruct (N.eqb _ 0); [discriminate|]. inversion EA; subst. split; [exact LI|cbn; intros x; tauto].
+  - destruct (make_learner _ _ _ _ _ _) as [c1 p1] eqn:ML.
+    destruct (N.eqb _ 0); [discriminate|]. inversion EA; subst.
+    eapply make_learner_linv in ML; [|exact LI]. cbn in ML. destruct ML as (L1 & _ & M1 & M2 & M3).
+    split; [exact L1|]. intros x.
+    assert (SO : smem (c_outgoing (t_config t)) id = false).
+    { unfold joint in J. cbn in J. apply negb_false_iff, nlen_zero in J. rewrite J. reflexivity. }
+    specialize (M3 SO). split.
+    + intros I. apply M1 in I. tauto.
+    + intros [[-> _]|I]; [exact M3|]. destruct (N.eq_dec x id) as [->|NE]; [exact M3|apply M2; assumption].
+Qed.
+
+Lemma chain_add_linv li : forall ids t t',
+  linv (t_config t) (t_progress t) ->
+  chain_simple t li (map (mkCCS CCAddNode) ids) = inl t' ->
+  linv (t_config t') (t_progress t') /\ (forall x, In x (c_learners (t_config t')) -> In x (c_learners (t_config t))).
+Proof.
+  induction ids as [|id ids IH]; intros t t' LI H; cbn [map chain_simple] in H.
+  - inversion H; subst. tauto.
+  - destruct (changer_simple t li [mkCCS CCAddNode id]) as [[c p]|e] eqn:E; [|discriminate].
+    apply simple_add_linv in E; [|exact LI]. destruct E as [L1 S1].
+    apply IH in H; [|exact L1]. cbn [t_with_config_progress t_config] in H. destruct H as [L2 S2].
+    split; [exact L2|]. intros x I. auto.
+Qed.
+
+Lemma chain_learner_linv li : forall ids t t',
+  linv (t_config t) (t_progress t) ->
+  chain_simple t li (map (mkCCS CCAddLearnerNode) ids) = inl t' ->
+  linv (t_config t') (t_progress t') /\
+  (forall x, In x (c_learners (t_config t')) <-> (In x ids /\ x <> 0) \/ In x (c_learners (t_config t))).
+Proof.
+  induction ids as [|id ids IH]; intros t t' LI H; cbn [map chain_simple] in H.
+  - inversion H; subst. split; [exact LI|]. cbn. tauto.
+  - destruct (changer_simple t li [mkCCS CCAddLearnerNode id]) as [[c p]|e] eqn:E; [|discriminate].
+    apply simple_learner_linv in E; [|exact LI]. destruct E as [L1 S1].
+    apply IH in H; [|exact L1]. cbn [t_with_config_progress t_config] in H. destruct H as [L2 S2].
+    split; [exact L2|]. intros x. rewrite S2, S1. cbn [In]. intuition (subst; auto).
+Qed.
+
+(* Restore of a non-joint ConfState into a fresh tracker: the learner set of the result is
+   the ConfState's Learners together with its LearnersNext (id 0 skipped) *)
+Theorem restore_learners_fresh mi mb li cs c p :
+  cc_restore (make_tracker mi mb) li cs = inl (c, p) -> cs_voters_outgoing cs = [] ->
+  forall x, In x (c_learners c) <-> (In x (cs_learners cs) \/ In x (cs_learners_next cs)) /\ x <> 0.
+Proof.
+  unfold cc_restore, to_cc_single. intros H NO x. rewrite NO in H. cbn [map app] in H.
+  destruct (chain_simple _ li _) as [t'|e] eqn:EC; [|discriminate]. inversion H; subst. clear H.
+  apply chain_simple_app in EC. destruct EC as (t1 & E1 & EC).
+  apply chain_simple_app in EC. destruct EC as (t2 & E2 & E3).
+  assert (L0 : linv (t_config (make_tracker mi mb)) (t_progress (make_tracker mi mb))).
+  { unfold linv. cbn. repeat split; intros; try contradiction; discriminate. }
+  apply chain_add_linv in E1; [|exact L0]. destruct E1 as [L1 S1].
+  apply chain_learner_linv in E2; [|exact L1]. destruct E2 as [L2 S2].
+  apply chain_learner_linv in E3; [|exact L2]. destruct E3 as [L3 S3].
+  rewrite S3, S2. specialize (S1 x). cbn in S1. tauto.
+Qed.
